@@ -69,7 +69,10 @@ func tlaValue(v any) string {
 
 // SchemaModule renders module SchemaData: one constant definition per instance,
 // TY(n) as a CASE over them, TopNames.
-func (b *Built) SchemaModule(tops []string) []byte {
+func (b *Built) SchemaModule(tops []string) []byte { return b.SchemaModuleX(tops, nil) }
+
+// SchemaModuleX additionally defines ExtraVals(p): extra leaf values per primitive type.
+func (b *Built) SchemaModuleX(tops []string, extra map[string][][]int) []byte {
 	types := b.Schema["types"].(map[string]any)
 	names := make([]string, 0, len(types))
 	for n := range types {
@@ -88,6 +91,24 @@ func (b *Built) SchemaModule(tops []string) []byte {
 		}
 		fmt.Fprintf(&sb, "n = %s -> T%d", strconv.Quote(n), i)
 	}
-	sb.WriteString("\nTopNames == " + tlaValue(tops) + "\nAllNames == " + tlaValue(names) + "\n====\n")
+	sb.WriteString("\nTopNames == " + tlaValue(tops) + "\nAllNames == " + tlaValue(names) + "\n")
+	sb.WriteString("ExtraVals(p) ==\n  CASE ")
+	var prims []string
+	for p := range extra {
+		prims = append(prims, p)
+	}
+	sort.Strings(prims)
+	for _, p := range prims {
+		var vals []string
+		for _, v := range extra[p] {
+			parts := make([]string, len(v))
+			for i, x := range v {
+				parts[i] = strconv.Itoa(x)
+			}
+			vals = append(vals, "<<"+strings.Join(parts, ", ")+">>")
+		}
+		fmt.Fprintf(&sb, "p = %s -> {%s}\n    [] ", strconv.Quote(p), strings.Join(vals, ", "))
+	}
+	sb.WriteString("OTHER -> {}\n====\n")
 	return []byte(sb.String())
 }
